@@ -76,6 +76,13 @@ class AdjGen:
                 new = self.choice(cands + ["z%d" % self.counter])
                 self.features.add("renamed-shift")
                 return ("sub", t, ((a, ("var", b, (NAMES[a], ()))), (b, ("var", new, (NAMES[a], ())))))
+            if c < 0.85 and pairs:
+                # renaming onto a name the leaf keeps (diagonal): x[a,b](a='b')
+                a, b = self.choice(pairs)
+                if self.rng.random() < 0.5:
+                    a, b = b, a
+                self.features.add("renamed-diagonal")
+                return ("sub", t, ((a, ("var", b, (NAMES[a], ()))),))
             k = self.choice(list(names))
             if NAMES[k] >= 2:
                 perm = self.rng.permutation(NAMES[k]).astype(np.int64)
@@ -327,7 +334,70 @@ def contr_to_basic(ir):
     return ir
 
 
-def model_matches(P, arr, sr, adj, lnames, value_at):
+def _safe(thunk):
+    try:
+        return thunk()
+    except Exception:
+        import os, traceback
+
+        if os.environ.get("FV_DEBUG"):
+            traceback.print_exc()
+        return False
+
+
+def diagonal_renames(P, arr):
+    """(key, kept name) pairs of substitutions applied directly to the leaf `arr` whose value is a variable named like another input
+    that the leaf keeps: x[a,b](a='b') ties two dims of the leaf (a diagonal)"""
+    out = []
+
+    def walk(ir):
+        if not isinstance(ir, tuple) or not ir or not isinstance(ir[0], str):
+            if isinstance(ir, tuple):
+                for c in ir:
+                    walk(c)
+            return
+        if ir[0] == "sub" and ir[1][0] == "ten" and ir[1][1] is arr:
+            names = ir[1][2]
+            keys = [k for k, v in ir[2]]
+            for k, v in ir[2]:
+                if v[0] == "var" and v[1] in names and v[1] not in keys and k in names:
+                    out.append((list(names).index(k), list(names).index(v[1])))
+        for c in ir[1:]:
+            walk(c)
+
+    walk(P)
+    return out
+
+
+def diagonal_model_matches(P, arr, names, table, sr, on_diagonal_ok=None):
+    """known mechanism: when the adjoint handed down to a diagonal renaming x(a='b') is a constant (a Number), the renaming shortcut of
+    eager_scatter_number returns it unchanged, so the leaf's adjoint is the diagonal value broadcast along `a` instead of being the
+    sum-unit off the diagonal. The key is only assigned when the returned adjoint equals that model at every index."""
+    ties = diagonal_renames(P, arr)
+    if len(ties) != 1 or not table:
+        return False
+    ia, ib = ties[0]      # positions of the tied dims in the leaf's array (names in P may have been uniquified)
+    unit = 0.0 if sr[0] == "add" else -np.inf
+    seen_off = False
+    for x, (got, want) in table.items():
+        xd = list(x)
+        xd[ia] = x[ib]
+        gd, wd = table.get(tuple(xd), (None, None))
+        if gd is None:
+            return False
+        if x[ia] == x[ib]:
+            if on_diagonal_ok is None and not close(got, want, rtol=1e-6):
+                return False
+        else:
+            seen_off = True
+            if not (want == unit) or not close(got, gd, rtol=1e-6):
+                return False
+    if on_diagonal_ok is not None and not on_diagonal_ok(lambda x: x[ia] == x[ib]):
+        return False
+    return seen_off
+
+
+def model_matches(P, arr, sr, adj, lnames, value_at, only_points=None):
     """True iff some occurrence loses a multiplicity > 1 and the returned adjoint equals, at every point, the derivative in which
     each occurrence's contribution is divided by exactly its lost multiplicity"""
     occs = occurrences(P, arr, sr)
@@ -335,6 +405,8 @@ def model_matches(P, arr, sr, adj, lnames, value_at):
         return False
     sum_op, prod_op = sr
     for x in itertools.product(*[range(z) for z in arr.shape]):
+        if only_points is not None and not only_points(x):
+            continue
         total = UNIT[sum_op]
         for pth, m in occs:
             with np.errstate(all="ignore"):
@@ -485,6 +557,7 @@ def run_case(P, sr, g, res, riders, rng):
             bad = None
             n = 0
             ratios = []
+            table = {}
             try:
                 for x in itertools.product(*[range(s) for s in arr.shape]):
                     # root point: every free input of the program; names shared with the leaf are tied to the leaf index
@@ -499,6 +572,7 @@ def run_case(P, sr, g, res, riders, rng):
                         aenv.update(zip(lnames, x))
                         got = value_at(adj, {k: aenv[k] for k in adj.inputs})[0]
                         n += 1
+                        table[x] = (got, want)
                         if np.isnan(want):
                             continue
                         with np.errstate(all="ignore"):
@@ -531,6 +605,11 @@ def run_case(P, sr, g, res, riders, rng):
                 bn = bound_names(P)
                 if m:
                     key = "multiplicity-of-unmentioned-reduced-vars"
+                elif diagonal_model_matches(P, arr, names, table, sr):
+                    key = "diagonal-rename-constant-incoming"
+                elif diagonal_model_matches(P, arr, names, table, sr, on_diagonal_ok=lambda diag: _safe(lambda: model_matches(E, arr, sr, adj, lnames, value_at, only_points=diag))):
+                    # both known mechanisms at once: off the diagonal the constant is broadcast, on the diagonal a multiplicity is lost
+                    key = "diagonal-rename-constant-incoming+multiplicity-of-unmentioned-reduced-vars"
                 elif len(bn) != len(set(bn)) or any(b in p_all_free for b in bn):
                     key = "same-user-name-bound-twice"
                 res.violation("adjoint:%s" % key, "[%s %s,%s] %s | %s" % (route, sr[0], sr[1], bad, show(P)[:400]), case=case)
